@@ -21,7 +21,7 @@ RULE_TEXT = ('runs = deterministic sweep over defect classes (15) x every varian
              '(random companions, positions, knobs). Non-trivial = the control run of the undefected base showed '
              'process spawns in all five phases and a sandbox; distinct = (defect class, variant, phase, position '
              'class, mode/command).')
-REACH_PROBES = ['class_syntax', 'class_unknown_instruction', 'class_undefined_symbol', 'class_defined_later',
+REACH_PROBES = ['class_syntax', 'class_unknown_instruction', 'class_undefined_symbol', 'class_defined_later', 'class_self_reference',
                 'class_wrong_type', 'class_wrong_type_non_ascii_name', 'class_illegal_relativity', 'class_missing_home_file', 'class_missing_file_absolute_path', 'class_bad_integer',
                 'class_bad_integer_expression', 'class_bad_regex', 'class_defect_inside_matcher_expression', 'class_act_syntax', 'class_act_defect', 'case_marked_as_expected_to_fail', 'class_unknown_instruction_in_second_included_file', 'defect_phase_partly_in_included_file', 'sections_redeclared_or_reordered',
                 'act_defect_command_line_actor', 'act_defect_file_actor', 'act_defect_source_actor', 'class_stub_validation',
@@ -47,6 +47,10 @@ DEFECTS = {
                          ('run @ UNDEF_PROG', ALLP), ('% p @[LISTSYM]@ "@[UNDEF]@"', ALLP),
                          ('stdout equals @[UNDEF]@', ('assert',))],
     'defined_later': [('file u.txt = @[LATER]@', ALLP), ('% p @[LATER]@', ALLP)],
+    # a definition that refers to the symbol it defines: at that point the symbol is not defined
+    'self_reference': [('def string SELF = x@[SELF]@', ALLP), ('def list SELFL = a @[SELFL]@', ALLP),
+                       ('def text-matcher SELFM = ! SELFM', ALLP), ('def path SELFP = -rel SELFP x', ALLP),
+                       ('def string SELF2 = "a @[STRSYM]@ @[SELF2]@"', ALLP)],
     'wrong_type_non_ascii_name': [('file u.txt = "@[LM_\u00e4]@"', ALLP), ('$ echo @[LM_\u00e4]@', ALLP)],
     'wrong_type': [('run @ STRSYM', ALLP), ('cd -rel STRSYM x', ALLP), ('cd -rel LISTSYM x', ALLP),
                    ('copy @[LISTSYM]@', ALLP),
